@@ -6,17 +6,17 @@ import traceback
 
 def main():
     prop, tier, seed, shard, nshards, out = sys.argv[1:7]
-    from . import boot
-
-    boot.check_repo_import()
-    from .ctx import Ctx
-
     import os as _os
 
     if _os.environ.get("VERIF_COVER"):
         from . import cover
 
-        cover.start(_os.environ.get("VERIF_REPO", "/repo"))
+        cover.start(_os.environ.get("VERIF_REPO", "/repo"))  # before the repository is imported: class bodies and defs count too
+    from . import boot
+
+    boot.check_repo_import()
+    from .ctx import Ctx
+
     ctx = Ctx(prop, tier, int(seed), int(shard), int(nshards))
     mod = importlib.import_module("vf.props." + prop.lower())
     from .ctx import ShardAbort
